@@ -1,6 +1,7 @@
 /* C side of the compiled Decay0 reference: deviate service, trace buffer, complex gamma via GSL.
    All Fortran REALs are 8 bytes (-fdefault-real-8). */
 #include <math.h>
+#include <setjmp.h>
 #include <stdio.h>
 #include <stdlib.h>
 #include <string.h>
@@ -12,6 +13,10 @@
 static const double * g_script = NULL;
 static size_t g_n = 0, g_pos = 0;
 static int g_exhausted = 0;
+static jmp_buf * g_overrun_jmp = NULL;   /* armed by the driver: leave the reference when it runs away on an exhausted script */
+#define REF_OVERRUN_LIMIT 2000000
+
+void ref_arm_overrun(jmp_buf * jb) { g_overrun_jmp = jb; }
 
 void ref_set_script(const double * u, size_t n) { g_script = u; g_n = n; g_pos = 0; g_exhausted = 0; }
 size_t ref_script_pos(void) { return g_pos; }
@@ -19,7 +24,16 @@ int ref_exhausted(void) { return g_exhausted; }
 
 static double next_deviate(void)
 {
-  if (g_pos >= g_n) { g_exhausted = 1; g_pos++; return 0.5; }
+  if (g_pos >= g_n) {
+    g_exhausted = 1;
+    g_pos++;
+    if (g_overrun_jmp && g_pos > g_n + REF_OVERRUN_LIMIT) {
+      jmp_buf * jb  = g_overrun_jmp;
+      g_overrun_jmp = NULL;
+      longjmp(*jb, 1);
+    }
+    return 0.5;
+  }
   return g_script[g_pos++];
 }
 
